@@ -37,7 +37,7 @@ class RestState(c02.Fidelity):
             return False, "%d names left on the schema stack" % stack
         if in_progress:
             return False, "%d schemas left IN_PROGRESS" % in_progress
-        for i, (count, props, req, shape, members) in enumerate(out):
+        for i, (count, props, req, shape, members, *_more) in enumerate(out):
             if count < 1:
                 return False, "declared schema #%d is missing from the result" % i
         return True, ""
